@@ -40,6 +40,7 @@ class ExcFlow:
         call_filter: Optional[Callable[[FuncInfo, ast.Call, List[FuncInfo]], List[FuncInfo]]] = None,
         include_assert: bool = True,
         max_chain: int = 6,
+        dead_test: Optional[Callable[[FuncInfo, ast.AST], Optional[bool]]] = None,
     ) -> None:
         self.m = model
         self.r = resolver
@@ -48,6 +49,7 @@ class ExcFlow:
         self.call_filter = call_filter
         self.include_assert = include_assert
         self.max_chain = max_chain
+        self.dead_test = dead_test
         self.esc: Dict[str, Dict[Tuple[str, str, str], Event]] = {}
         self.handled: Dict[str, List[Tuple[Event, str]]] = {}  # func -> (event, handler text) caught locally
 
@@ -179,6 +181,11 @@ class ExcFlow:
                 evs.append(Event("AssertionError", f.qualname, " ".join(("assert " + unparse(st.test)).split())[:200], f.site(st)))
             return evs
         if isinstance(st, ast.If):
+            known = self.dead_test(f, st.test) if self.dead_test is not None else None
+            if known is True:
+                return self._block(f, st.body, reraise)
+            if known is False:
+                return self._block(f, st.orelse, reraise)
             return self._expr_events(f, st.test) + self._block(f, st.body, reraise) + self._block(f, st.orelse, reraise)
         if isinstance(st, ast.While):
             return self._expr_events(f, st.test) + self._block(f, st.body, reraise) + self._block(f, st.orelse, reraise)
